@@ -7,9 +7,11 @@ package verifsys
 
 import (
 	"context"
+	"errors"
 	"fmt"
 	"sort"
 	"strings"
+	"time"
 
 	"github.com/go-logr/logr"
 	corev1 "k8s.io/api/core/v1"
@@ -25,6 +27,7 @@ import (
 	corev1alpha1 "package-operator.run/apis/core/v1alpha1"
 	"package-operator.run/internal/controllers/objectsetphases"
 	"package-operator.run/internal/controllers/objectsets"
+	"package-operator.run/internal/dynamiccache"
 	"package-operator.run/internal/verifphase"
 	"package-operator.run/internal/verifstore"
 )
@@ -60,7 +63,7 @@ type SetEnv struct {
 //	gcPhase  — the garbage collector's half of an orphan deletion: dependents lose their owner
 //	           reference to the phase object, then the "orphan" finalizer is released.
 type Step struct {
-	Op     string             `json:"op"` // reconcile | phase | env | lifecycle | delete | editPayload | restart | delSlice | rescope (set = kind, value = namespaced | cluster | unknown)
+	Op     string             `json:"op"` // reconcile | phase | env | lifecycle | delete | editPayload | restart | delSlice | rescope (set = kind, value = namespaced | cluster | unknown) | namespace (value = terminating | gone | live)
 	Set    string             `json:"set"`
 	Value  string             `json:"value"`
 	Orphan bool               `json:"orphan"`
@@ -484,18 +487,28 @@ func setCondU(conds []interface{}, typ, status, reason string, gen int64) []inte
 	return append(conds, n)
 }
 
-// newSys builds the store, the cache and the REAL controllers for a scenario.
-func newSys(scn Scn) *sys {
-	scheme := Scheme()
-	y := &sys{scn: scn, scheme: scheme, env: verifphase.NewEnv(scheme)}
+// startProcess is the start of an operator process: a NEW, empty dynamic cache (nothing is
+// watched: reading any kind through it fails with CacheNotStartedError until somebody calls Watch)
+// and NEW controllers built by the real constructors - whatever the previous process held in
+// memory is gone.  The API server (store) is the only thing that survives.
+func (y *sys) startProcess() {
+	y.env.Cache = y.env.Store.NewCache()
 	c := y.env.Store.Client()
-	if scn.Cluster {
+	scheme := y.scheme
+	if y.scn.Cluster {
 		y.os = objectsets.NewClusterObjectSetController(c, logr.Discard(), scheme, y.env.Cache, c, nil, y.env.Store.Mapper())
 		y.ph = objectsetphases.NewSameClusterClusterObjectSetPhaseController(logr.Discard(), scheme, y.env.Cache, c, "default", c, y.env.Store.Mapper())
 	} else {
 		y.os = objectsets.NewObjectSetController(c, logr.Discard(), scheme, y.env.Cache, c, nil, y.env.Store.Mapper())
 		y.ph = objectsetphases.NewSameClusterObjectSetPhaseController(logr.Discard(), scheme, y.env.Cache, c, "default", c, y.env.Store.Mapper())
 	}
+}
+
+// newSys builds the store, the cache and the REAL controllers for a scenario.
+func newSys(scn Scn) *sys {
+	scheme := Scheme()
+	y := &sys{scn: scn, scheme: scheme, env: verifphase.NewEnv(scheme)}
+	y.startProcess()
 	y.env.Store.RegisterKind(schema.GroupKind{Group: "", Kind: "Namespace"}, false)
 	for _, sp := range scn.Sets {
 		y.putSet(sp)
@@ -623,9 +636,9 @@ func (y *sys) doStep(st Step) string {
 		}
 		log := y.env.Store.Log[from:]
 		if hit {
-			// a restart follows a crash: the dynamic cache is in-memory only
+			// a restart follows a crash: a new process, the dynamic cache is in-memory only
 			if st.Fault.Mode == "crash" {
-				y.env.Cache.Restart()
+				y.startProcess()
 			}
 			eff := 0
 			for _, r := range log {
@@ -639,7 +652,11 @@ func (y *sys) doStep(st Step) string {
 			return "R fault"
 		}
 		r := "ok"
-		if err != nil {
+		var notStarted *dynamiccache.CacheNotStartedError
+		if errors.As(err, &notStarted) {
+			// the pass read a kind through the dynamic cache that nobody in this process watches
+			r = "err:CacheNotStarted"
+		} else if err != nil {
 			r = "err"
 		} else if res.Requeue || res.RequeueAfter > 0 {
 			r = "requeue"
@@ -683,8 +700,8 @@ func (y *sys) doStep(st Step) string {
 			}
 		})
 		return "-"
-	case "restart":
-		y.env.Cache.Restart()
+	case "restart": // the operator process is replaced (crash between passes, upgrade, eviction)
+		y.startProcess()
 		return "-"
 	case "delSlice": // a third party (garbage collector, user) deletes an ObjectSlice
 		y.env.Store.Remove(y.sliceKey(st.Set))
@@ -694,6 +711,12 @@ func (y *sys) doStep(st Step) string {
 		return "-"
 	case "gcPhase": // (S1B) the garbage collector finishes an orphan deletion of a phase object
 		y.gcPhaseObject(st.Set)
+		return "-"
+	case "namespace":
+		// The scenario's Namespace as the controllers' client sees it from now on (only the
+		// remote-phase teardown looks at it): "terminating" = in deletion, "gone" = the client
+		// answers NotFound, anything else = there again.
+		y.setNamespace(st.Value)
 		return "-"
 	case "rescope":
 		// The API of a managed kind is removed / registered again with another scope while the
@@ -715,6 +738,22 @@ func (y *sys) doStep(st Step) string {
 		return "-"
 	}
 	return "BAD-STEP"
+}
+
+// setNamespace replaces the Namespace fixture (no uid / resourceVersion of the store's counters is used).
+func (y *sys) setNamespace(state string) {
+	nsObj := &unstructured.Unstructured{Object: map[string]interface{}{"apiVersion": "v1", "kind": "Namespace"}}
+	nsObj.SetName(NS)
+	y.env.Store.PutQuiet(nsObj)
+	switch state {
+	case "terminating":
+		t := metav1.NewTime(time.Date(2020, 1, 1, 0, 0, 0, 0, time.UTC))
+		nsObj.SetDeletionTimestamp(&t)
+		nsObj.SetFinalizers([]string{"kubernetes"})
+		y.env.Store.PutQuiet(nsObj)
+	case "gone":
+		y.env.Store.Remove(verifstore.Key{Group: "", Kind: "Namespace", Name: NS})
+	}
 }
 
 // ---- (S1B) third-party operations on phase objects
